@@ -1,5 +1,5 @@
 From SV Require Import Dispatch.Stage Dispatch.Borrow Dispatch.Exec Dispatch.StageInv Dispatch.BorrowInv
-  Dispatch.ExecInv Checkers.DispatchChk Props.C11.
+  Dispatch.ExecInv Dispatch.FineExec Dispatch.FineInv Checkers.DispatchChk Props.C11.
 From Coq Require Import Permutation.
 Check (C11_stages_conflict_free : forall os, Forall stage_free (b_stages (d_sb (d_build os)))).
 Check (C11_stages_respect_deps : forall os, deps_stages [] (b_stages (d_sb (d_build os)))).
@@ -30,6 +30,10 @@ Check (C11_all_steps_safe : forall os, d_stuck (d_build os) = false ->
   (forall s, In s (d_systems 0 os) -> self_ok s) ->
   forall tr, stages_trace (b_stages (d_sb (d_build os))) tr ->
   safe_run m_init tr /\ m_stuck (m_run m_init tr) = false /\ m_running (m_run m_init tr) = []).
+Check (C11_borrow_never_refused_fine : forall os, d_stuck (d_build os) = false ->
+  (forall s, In s (d_systems 0 os) -> self_ok s) ->
+  forall tr p q, fstages_trace (b_stages (d_sb (d_build os))) tr -> tr = p ++ q ->
+  f_run (Some bs_init) p <> None).
 Check (C11_decl_matches_fetch : forall h,
   shared_of (fetch_borrows h) = fst (decl h) /\ excl_of (fetch_borrows h) = snd (decl h)).
 Check (C11_decl_matches_fetch_tuple : forall hs,
